@@ -11,7 +11,7 @@ from concurrent.futures import ThreadPoolExecutor
 sys.path.insert(0, os.path.dirname(os.path.abspath(__file__)))
 import gen_classtable as GC
 
-V = '/verif'
+V = os.environ.get('VERIF_ROOT') or os.path.dirname(os.path.dirname(os.path.abspath(__file__)))
 REPO = os.environ.get('VERIF_REPO', '/repo')
 BL_GET = {'header_size', 'trailer_size', 'size', 'pdu_type', 'clone', 'advertised_size', 'inner_pdu', 'parent_pdu',
           'matches_flag', 'serialize', 'begin', 'end', 'extensions', 'send', 'recv_response'}
